@@ -146,6 +146,7 @@ func setHash(mode string, n int, seed uint64) {
 // want: which oracles to evaluate.
 type Want struct {
 	Lin, Ledger, Traversal, Size, Racers, ReadBound bool
+	Defaults bool // C09: entries stored with DefaultExpiration while the default is being changed
 }
 
 // RunConc executes the scenario and evaluates the requested oracles.
@@ -517,6 +518,9 @@ func RunConc(sc *ConcScenario, want Want) *ConcResult {
 		}
 		if want.Size {
 			res.checkClearSurvivors(phaseRecs, state, newState, pi)
+		}
+		if want.Defaults && cacheFam {
+			res.checkDefaults(phaseRecs, ro, def0, pi)
 		}
 		cleared := false
 		for _, r := range phaseRecs {
@@ -1529,6 +1533,84 @@ func (res *ConcResult) checkClearSurvivors(recs []*Rec, before, after map[int]ke
 		// not stored in this phase: it was there before the phase began
 		if b, ok := before[k]; ok && b.v == ks.v {
 			res.add("size-clear-survivor", phase, "(k%d,v%d) was stored before the phase and is still there after %s returned", k, ks.v, clears[0])
+			return
+		}
+	}
+}
+
+// checkDefaults (C09: "d==DefaultExpiration uses the default in force at the
+// moment of the call"): an entry stored with the default TTL while other tasks
+// change the default must carry the instant that one of the defaults in force
+// during the storing call dictates - never a mixture of two. The clock is
+// frozen in the phase and the storing tasks use keys of their own, so every
+// stored entry must be found by the read-out.
+func (res *ConcResult) checkDefaults(recs []*Rec, ro []*Rec, def0 int64, phase int) {
+	var toggles []*Rec
+	for _, r := range recs {
+		if r.Op.K == CSetDefaultExpiration {
+			toggles = append(toggles, r)
+		}
+	}
+	last := map[int]*Rec{} // the last default-TTL store per key (each key belongs to one task)
+	for _, r := range recs {
+		if r.Nested || r.Pending {
+			continue
+		}
+		switch r.Op.K {
+		case CSetDefault:
+			last[r.Op.Key] = r
+		case CSet, CGetAndSet:
+			if r.Op.D == sentinelDefault {
+				last[r.Op.Key] = r
+			} else {
+				delete(last, r.Op.Key)
+			}
+		default:
+			if keyedOp(r.Op.K) {
+				delete(last, r.Op.Key)
+			}
+		}
+	}
+	for _, g := range ro {
+		s, ok := last[g.Op.Key]
+		if !ok {
+			continue
+		}
+		// defaults that can have been in force at some moment of s
+		var cands []int64
+		superseded := func(xRet uint64, xPending bool) bool {
+			if xPending {
+				return false
+			}
+			for _, y := range toggles {
+				if !y.Pending && y.Call > xRet && y.Ret < s.Call {
+					return true
+				}
+			}
+			return false
+		}
+		if !superseded(0, false) {
+			cands = append(cands, def0)
+		}
+		for _, x := range toggles {
+			if x.Call < s.Ret && !superseded(x.Ret, x.Pending) {
+				cands = append(cands, x.Op.D)
+			}
+		}
+		okExp := false
+		var wants []int64
+		for _, d := range cands {
+			e := int64(0)
+			if d > 0 {
+				e = s.Now + d
+			}
+			wants = append(wants, e)
+			if g.Ok && g.Val == s.Op.Val && g.Exp == e {
+				okExp = true
+			}
+		}
+		if !okExp {
+			res.add("expiry-default", phase, "%s stored with the default TTL (defaults in force during the call: %v, admissible instants %v) but the read-out says %s", s, cands, wants, g)
 			return
 		}
 	}
